@@ -355,6 +355,9 @@ def installed(fs):
                         ("unlink", fs.unlink, 1), ("remove", fs.unlink, 1), ("rmdir", fs.rmdir, 1),
                         ("walk", fs.walk, 1), ("utime", fs.utime, 1)]:
         patch(os, name, fn, n)
+    def _chmod(path, mode, *a, **k):
+        fs.stat(path)                  # permissions are not modelled: only the existence check of chmod remains
+    patch(os, "chmod", _chmod)
     patch(shutil, "rmtree", fs.rmtree)
     patch(builtins, "open", fs.open)
     patch(io, "open", fs.open)
